@@ -215,6 +215,32 @@ def f3_vectors(check, prog, canon):
             for k, v in coords[1])
         check.require(ok, 'F3-unit-polarization', construct + ' labels',
                       "components labelled vector = ['x', 'y', 'z']", loc)
+    # ... and a polarisation that arrives as a labelled array (a user-built
+    # DataArray, one or several channels) is normalised as well: every leaf of
+    # to_vector other than the None / False pass-through and the per-key recursion
+    # divides by the norm along `vector`
+    def decide2(t):
+        if t[0] == 'cmp' and t[1] == 'is' and t[3] in (NONE, FALSE):
+            return False
+        if t[0] == 'call' and t[1] == 'hasattr':
+            return True
+        return None
+    it = Interp(prog, max_depth=1, decide=decide2)
+    ret = it.analyze(q).ret
+    c = sym(fd.args.args[0].arg)
+    c0 = Canon()
+    norms = [expr_term(prog, e_, {'c': c}) for e_ in (
+        "c / np.sqrt((c**2).sum('vector'))", "c / np.sqrt((c*c).sum('vector'))",
+        "c / np.sqrt((c**2).sum(dim='vector'))", "c / (c**2).sum('vector')**0.5",
+        "c / np.sqrt(np.square(c).sum('vector'))")]
+    ok = any(c0.equal(ret, w_) for w_ in norms)
+    check.require(ok, 'F3-unit-polarization', 'to_vector labelled array',
+                  'a polarisation given as a labelled array is divided by its norm '
+                  'along `vector`', loc,
+                  fail_detail='returns %s: xr.DataArray([3, 4, 0], dims=\'vector\') stays '
+                  'of length 5 -- the reference wave of calc_holo is then 25 times too '
+                  'strong at scaling 0, and update_metadata stores an unnormalised '
+                  'polarisation' % c0.show(ret)[:120])
     # dict_to_array: labels and values in one order
     q = M + 'dict_to_array'
     fd = prog.func(q)
